@@ -19,7 +19,12 @@ the edited document, never on the running server's own diagnostics; "otherwise t
 printed toplevels AND semantically (EditsTrace!NoNewDiagnostic: no diagnostic of any kind that was not there before,
 EditsTrace!BoundNamesStayBound: every class name bound before is bound to the same module after, last import wins): the verdict conditions are the clauses of
 the property evaluated by TLC on the logged observations; disagreement between Edits.tla's ApplyEdits /
-transcribed fix shapes / import-section reader and the harness / implementation is MODEL-DRIFT only."""
+transcribed fix shapes / import-section reader and the harness / implementation is MODEL-DRIFT only.
+The space also has (family "multi") layouts in which existing imports SPAN SEVERAL LINES (member list wrapped, `from M` or
+the last token on a line of its own, comments inside; the last import, the earlier ones, or all) and (family "std") documents
+that use a class the STANDARD LIBRARY exports (Pair, Triple, Option, List) in a workspace that holds the library
+(`with_std`: the driver loads `builtin_std_raw_sources`); a proposal without any edit for a class that is unresolved and
+that no import names fails ClassImportedFromNamedModule / ClassNoLongerUnresolved like any other."""
 import json, os, random, re, time, threading
 from vlib import *
 
@@ -47,7 +52,8 @@ def case_id(c):
     d = c["doc"]
     imps = "+".join(f"{k}{'s' if i['semi'] else 'n'}{i['cmt'][0]}{'b' if i['blank'] else '-'}"
                     for k, i in zip(d["keys"], d["imports"]))
-    return f"{d['layout']}/{imps or 'noimports'}/{'+'.join(c['exporters'])}"
+    cls = "" if c["cls"] == "Foo" else "/" + c["cls"]
+    return f"{d['layout']}/{imps or 'noimports'}/{'+'.join(c['exporters'])}{cls}"
 
 
 # ---------------------------------------------------------------------------------------------------
@@ -244,7 +250,7 @@ def run_cases(cases, tag):
 
 def replay_case_of(case):
     return {k: case[k] for k in ("id", "text", "mods", "cls", "exporters", "init", "hist", "layout", "src", "last_semi",
-                                 "hinit", "hops", "cand_mods") if k in case}
+                                 "hinit", "hops", "cand_mods", "with_std", "already_named", "bound_to") if k in case}
 
 
 def assess(cases, tag, stats):
@@ -370,7 +376,13 @@ def run(tier):
             "class_bound_by_import_next_to_another_class": 0, "class_bound_by_local_declaration": 0,
             "class_bound_while_another_module_exports_it": 0,
             "class_already_named_in_import_of_non_exporter": 0, "imports_nested_module": 0,
-            "last_import_nested_module_without_semicolon": 0, "nested_exporter": 0}
+            "last_import_nested_module_without_semicolon": 0, "nested_exporter": 0,
+            "last_import_spans_several_lines": 0, "last_import_spans_several_lines_without_semicolon": 0,
+            "earlier_import_spans_several_lines_last_does_not": 0, "every_import_spans_several_lines": 0,
+            "comment_inside_an_import_that_spans_several_lines": 0,
+            "exporter_is_a_standard_library_module": 0, "standard_library_class_with_existing_imports": 0,
+            "existing_import_of_a_standard_library_module": 0}
+    std_classes = set()
     for c in cases:
         imps = c["doc"]["imports"]
         feat[f"imports_{len(imps)}"] += 1
@@ -393,18 +405,39 @@ def run(tier):
         feat["last_import_nested_module_without_semicolon"] += c["last_dotted"] and not c["last_semi"]
         feat["nested_exporter"] += any("." in m for m in c["exporters"])
         feat["layout_" + c["layout"]] = feat.get("layout_" + c["layout"], 0) + 1
+        ml = set(c.get("multiline", []))          # 1-based indices of the imports that span several lines
+        feat["last_import_spans_several_lines"] += len(imps) in ml
+        feat["last_import_spans_several_lines_without_semicolon"] += len(imps) in ml and not c["last_semi"]
+        feat["earlier_import_spans_several_lines_last_does_not"] += bool(ml) and len(imps) not in ml
+        feat["every_import_spans_several_lines"] += len(imps) > 1 and len(ml) == len(imps)
+        feat["comment_inside_an_import_that_spans_several_lines"] += any(imps[i - 1]["cmt"] != "none" for i in ml)
+        std_exp = any(m.startswith("std.") for m in c["exporters"])
+        if std_exp and not c.get("with_std"):
+            tool_failure(f"case {c['id']}: a standard-library exporter in a workspace without the library")
+        feat["exporter_is_a_standard_library_module"] += std_exp
+        feat["standard_library_class_with_existing_imports"] += std_exp and len(imps) > 0
+        feat["existing_import_of_a_standard_library_module"] += any(i["mod"].startswith("std.") for i in imps)
+        if std_exp:
+            std_classes.add(c["cls"])
+    feat["standard_library_classes"] = sorted(std_classes)
     need = ["imports_0", "imports_1", "imports_2", "comment_line", "comment_block", "blank_line",
             "imports_exporting_module_already", "two_exporters", "three_exporters", "class_bound_by_import_of_an_exporter",
             "class_bound_by_import_of_an_exporter_first_of_several", "class_bound_by_import_of_an_exporter_last_of_several",
             "class_bound_by_import_next_to_another_class", "class_bound_by_local_declaration",
             "class_bound_while_another_module_exports_it", "class_already_named_in_import_of_non_exporter",
-            "imports_nested_module", "nested_exporter"] + \
+            "imports_nested_module", "nested_exporter",
+            "last_import_spans_several_lines", "last_import_spans_several_lines_without_semicolon",
+            "earlier_import_spans_several_lines_last_does_not", "every_import_spans_several_lines",
+            "comment_inside_an_import_that_spans_several_lines", "exporter_is_a_standard_library_module",
+            "standard_library_class_with_existing_imports", "existing_import_of_a_standard_library_module"] + \
            ([] if kfs else ["last_import_without_semicolon", "last_import_nested_module_without_semicolon"])
     if tier != "quick":
         need.append("imports_3")
     missing = [k for k in need if feat[k] == 0]
     if missing:
         tool_failure(f"vacuity: no generated document has {missing}")
+    if not {"Pair", "Triple"} <= std_classes or len(std_classes) < 3:
+        tool_failure(f"vacuity: standard-library classes in the space: {sorted(std_classes)}")
     # 2. the real server on every document of the space
     failed = assess(cases, "space", stats)
     # 3. after edit histories: every history of EditsHistGen.tla, and random longer ones
@@ -438,9 +471,11 @@ def run(tier):
     hmissing = [k for k, v in hfeat.items() if v == 0]
     if hmissing:
         tool_failure(f"vacuity: no enumerated workspace history has {hmissing}")
-    ws_cases = enumerated_histories(cases, ws_hists, rng)
+    # (histories are about the user modules that may export `Foo`: documents of the standard-library family are not targets)
+    hpool = [c for c in cases if not c.get("with_std")]
+    ws_cases = enumerated_histories(hpool, ws_hists, rng)
     failed_w = assess(ws_cases, "wshist", stats)
-    hist_cases = histories(cases, 400 if tier == "quick" else 6000, rng)
+    hist_cases = histories(hpool, 400 if tier == "quick" else 6000, rng)
     failed_h = assess(hist_cases, "hist", stats)
     groups = report(failed, "document space") + report(failed_w, "after a workspace history (EditsHistGen)") + \
         report(failed_h, "after an edit history")
@@ -485,7 +520,8 @@ def run(tier):
         "exhaustive": False,
     }
     write_evidence(PID, tier, "model_checking", coverage,
-                   ["the class used but not resolved is `Foo`; the workspace has modules A, B, C, W, Lib.Util, Lib.Deep.Core (and E, Lib.Exp) of fixed texts",
+                   ["the class used but not resolved is `Foo`; the workspace has modules A, B, C, W, Lib.Util, Lib.Deep.Core (and E, Lib.Exp) of fixed texts; "
+                    "in the standard-library family it is Pair / Triple / Option / List, exported by std.tuples / std.option / std.list of the library the compiler ships",
                     "documents are ASCII; positions are (zero-based line, zero-based byte column)",
                     "a fresh ServerState on the edited text and the LIVE workspace (EditsHist!Replay of the history: removed / renamed-away modules are gone) "
                     "is 'the document after applying the edits' as the property means it; the running server's own diagnostics are never the verdict",
